@@ -578,7 +578,12 @@ func TestKnownFindings(t *testing.T) {
 			t.Errorf("finding %s: witness is not a C06 case: %v", f.ID, err)
 			continue
 		}
-		cs = append(cs, evid.Class{Name: f.Class, Witness: func() *evid.Failure { return run(c) }})
+		cls := f.Class
+		cs = append(cs, evid.Class{Name: cls, Witness: func() *evid.Failure {
+			evid.Journal("witness:"+cls, c) // a regression may kill the process: the journal attributes it
+			defer evid.JournalClear()
+			return run(c)
+		}})
 	}
 	evid.RunWitnesses(t, cs)
 }
